@@ -188,17 +188,30 @@ def observe(recs, snaps, t, conn, dev):
                 levels={k: (l.pattern, list(l.not_contains)) for k, l in conn.privilege_levels.items()})
 
 
+def nav_lines(case):
+    """the escalate / deescalate commands of the case's table (all sessions it registers included)"""
+    if not case.get("fault"):
+        return ()
+    rows = case_rows(case)
+    return {r[2] for r in rows if r[1]} | {r[3] for r in rows if r[1]}
+
+
 def run_sync(case):
     from harness.privdevice import run_history
     plat, dev, kw = build(case)
-    recs, snaps, t, conn = run_history(plat, dev, [tuple(o) for o in case["ops"]], case["sec"], hooks=bool(case.get("hooks")), **kw)
+    fault = case.get("fault")
+    if fault and fault["kind"] not in FAULT_KINDS["sync"]:
+        fault = dict(fault, kind="exc")          # a cancelled task exists on the asyncio stack only
+    recs, snaps, t, conn = run_history(plat, dev, [tuple(o) for o in case["ops"]], case["sec"], hooks=bool(case.get("hooks")),
+                                       fault=fault, navset=nav_lines(case), **kw)
     return observe(recs, snaps, t, conn, dev)
 
 
 async def run_async(case):
     from harness.privdevice import arun_history
     plat, dev, kw = build(case)
-    recs, snaps, t, conn = await arun_history(plat, dev, [tuple(o) for o in case["ops"]], case["sec"], hooks=bool(case.get("hooks")), **kw)
+    recs, snaps, t, conn = await arun_history(plat, dev, [tuple(o) for o in case["ops"]], case["sec"], hooks=bool(case.get("hooks")),
+                                              fault=case.get("fault"), navset=nav_lines(case), **kw)
     return observe(recs, snaps, t, conn, dev)
 
 
@@ -263,6 +276,7 @@ class Belief:
         for pr in probes:
             bel, mode, dest, call_bel, rnd = pr[:5]
             prompt = pr[5] if len(pr) > 5 else None
+            mode = pr[6] if len(pr) > 6 else mode        # the level the device was in when it printed that prompt
             if bel == "DUMMY" and dest is not None and mode != dest and self._admits(mode, dest, key, levels, prompt):
                 ok = rnd > 0 or (call_bel == "DUMMY" and self.legit_unknown)
                 if ok and key.get(mode) != key.get(dest):
@@ -325,7 +339,8 @@ def oracle(case, obs):
             tainted = (tainted or hz) and rec["belief"] not in ("DUMMY", rec["mode"])
             if not case["blocked"] and case["dpw"] is None and rec["out"] not in ("ok",):
                 out.append((f"op {i} {op[0]}: {rec['out']} although the device cooperates", {"hazard": hz or tainted}))
-        if op[0] != "A":
+        if op[0] != "A" or rec.get("injected"):
+            # (an operation abandoned by an injected fault is not judged itself: what follows must still be right)
             bt.after(op, rec)
             prev = rec
             continue
@@ -540,6 +555,8 @@ SESSION_NAME_SETS = {"cisco_nxos": [("sessA", "sessB"), ("maint-a", "maint-b", "
 def outside_model(case):
     """session names whose keys differ although one's case-folded pattern prefix is a prefix of the other's: the real patterns overlap
     (EOS), the model's share-group keys do not — the model's device assumption (`SessPrefixFree`) excludes such tables"""
+    if case.get("fault"):
+        return True         # operations abandoned inside a privilege change are not in the Lean model: oracle only
     if case["platform"] == "custom":
         return False
     t = ctx(case["platform"])["sess"]
@@ -611,6 +628,9 @@ def gen_cases(ck, tier):
                 cases += list(interleaved_session_cases(rng, p, names, 4))
             cases += list(interleaved_session_cases(rng, p, names, 0, budget=150 if tier == "quick" else 1500))
     for p in privgen.PLATFORMS:
+        small = len(ctx(p)["rows"]) <= 3
+        cases += list(fault_cases(rng, p, None if (small or tier == "thorough") else 120))
+    for p in privgen.PLATFORMS:
         cases += list(lifecycle_cases(rng, p, 2 if tier == "quick" else 3))
         cases += list(lifecycle_cases(rng, p, 0, budget=60 if tier == "quick" else 1200))
     cases += list(custom_cases(rng, 80 if tier == "quick" else 1500))
@@ -630,9 +650,52 @@ def want_async(idx, tier, case=None):
         return True
     if case is None:
         return False
+    if case.get("fault"):
+        return True
     if tier == "quick":
         return bool(case.get("hooks")) or has_share_group(case)
     return (bool(case.get("hooks")) or has_share_group(case)) and idx % 2 == 0
+
+
+FAULT_POINTS = ("before_write", "after_line", "after_return")
+FAULT_KINDS = {"sync": ("timeout_keep", "exc"), "async": ("timeout_keep", "cancel", "exc")}
+
+
+def fault_variants(points=FAULT_POINTS):
+    """every point of a privilege change x every way of abandoning it x device output kept / lost (kind "cancel" exists on the asyncio
+    stack only: the sync run of such a case uses "exc")"""
+    for point in points:
+        for kind in FAULT_KINDS["async"]:
+            for keep in (True, False):
+                if point == "before_write" and keep:
+                    continue
+                yield dict(point=point, kind=kind, keep=keep)
+
+
+def fault_cases(rng, platform, budget=None):
+    """acquisitions abandoned INSIDE a privilege change with the connection kept (timeout with NO_TERMINATE_ON_TIMEOUT, cancelled task,
+    injected exception) — the device completes the change or never sees it — followed by further acquisitions: each must reach exactly its
+    target or raise.  [establish a level; acquire (first or second hop hit by the fault); acquire again]"""
+    c = ctx(platform)
+    names = [r[0] for r in c["rows"]]
+    triples = [(a, b, d) for a in names for b in names for d in names if a != b]
+    if budget is not None:
+        triples = [rng.choice(triples) for _ in range(budget)]
+    for (a, b, d) in triples:
+        # "after_line" leaves the typed command on the device's line (the next return enters it): judged by C03 only
+        variants = list(fault_variants(("before_write", "after_return")))
+        for fv in (variants if budget is None else [rng.choice(variants)]):
+            pth = base_path_len(c["rows"], c["default"], a)
+            for hop in (1, 2):
+                host, user = rot_names(platform)
+                yield dict(platform=platform, login=c["default"], ops=[["A", a], ["A", b], ["A", d]], blocked=[], dpw=None, sec="", pwl=3,
+                           host=host, user=user, fault=dict(fv, k=pth + hop))
+
+
+def base_path_len(rows, a, b):
+    from harness.privdevice import tree_path
+    p = tree_path(rows, a, b)
+    return (len(p) - 1) if p else 0
 
 
 def lifecycle_cases(rng, platform, nmax, budget=None):
@@ -871,6 +934,7 @@ def run(tier, seed):
                           "dpw" if c["dpw"] else "nopw", f"sec={c['sec'] or '-'}", "belief-known" if len(tgt_ops) >= 2 else "belief-unknown",
                           "sessions-interleaved" if any(o[0] == "R" for o in c["ops"][1:]) and tgt_ops else "plain",
                           "reopened-with-hooks" if c.get("hooks") else "single-session",
+                          *((f"fault={c['fault']['point']}/{c['fault']['kind']}",) if c.get("fault") else ()),
                           "host-has-upper" if any(ch.isupper() for ch in c.get("host", "")) else "host-lower"))
         for stack, o in runs:
             if indom:
